@@ -695,7 +695,12 @@ var subFacts = map[string]func(p *Prog) string{
 			n++
 			okGuard := false
 			for _, g := range guardsOf(stack, call) {
-				if g.Cond != nil && g.Neg && mentionsField(info, g.Cond, modPath+"/method", "Parameters", "UpdateTarget") {
+				if g.Cond == nil || !mentionsField(info, g.Cond, modPath+"/method", "Parameters", "UpdateTarget") {
+					continue
+				}
+				// either on the not-taken side of `x.UpdateTarget`, or on the taken side of `!x.UpdateTarget`
+				_, negated := ast.Unparen(g.Cond).(*ast.UnaryExpr)
+				if g.Neg != negated {
 					okGuard = true
 				}
 			}
